@@ -4,6 +4,7 @@ package processor
 
 import (
 	"bufio"
+	"fmt"
 	"os"
 	"testing"
 	"testing/synctest"
@@ -37,6 +38,7 @@ func TestVerifC33(t *testing.T) {
 		func() {
 			defer func() {
 				if r := recover(); r != nil {
+					fmt.Fprintf(os.Stderr, "verif: case panicked: %v\n", r)
 					lines = append(lines, "panic")
 				}
 			}()
